@@ -309,7 +309,7 @@ def load_from_hdf5(config, file, path) -> Tensor:
     c_s = tuple(g.get('s')[:].tolist())
     c_t = tuple(tuple(x) for x in g.get('ts')[:].tolist())
     c_D = tuple(tuple(x) for x in g.get('Ds')[:].tolist())
-    c_Dp = [x[0] for x in c_D] if c_isdiag else np.prod(c_D, axis=1, dtype=np.int64).tolist()
+    c_Dp = [x[0] for x in c_D] if c_isdiag else (np.prod(c_D, axis=1, dtype=np.int64).tolist() if len(c_D) > 0 else [])
     slices = tuple(_slc(((stop - dp, stop),), ds, dp) for stop, dp, ds in zip(accumulate(c_Dp), c_Dp, c_D))
     struct = _struct(s=c_s, n=c_n, diag=c_isdiag, t=c_t, D=c_D, size=sum(c_Dp))
 
